@@ -76,6 +76,12 @@ CLAIMED["C05"] = dict(
     technique="Lean 4 round-trip theorems model vs independent spec over proved AES-CBC + reduction to a named SHA-256 collision; differential correspondence and bit-flip sweep",
     note="A type-nibble flip 3->1 is handled at the LAN._read level (the result must then pass the V2 signature check); checked in the sweep.")
 
+CLAIMED["C06"] = dict(
+    text="Theorems (Lean 4): for every key and nonce (32 bytes) the client derives from the genuine reply (built by the independent Spec.V3.handshakeReply) exactly the device's session key nonce XOR key; any payload of length != 64 and any alteration confined to the proof half are rejected with an authentication error outright; an alteration of the encrypted-nonce half can only be accepted through an explicit SHA-256 collision (CBC decryption injectivity proved); a reply produced under a different key only through a collision or an explicit key-confusion event; error packets and encrypted responses before any key exists are protocol errors (promoted to authentication errors). The state-machine part (key stored only on success, nothing but handshake requests written, stored credentials kept) is proved over the Session model in Props/C07. Tie: the real Device.authenticate on the virtual-time loop against the independent simulated device whose replies come from the Lean Spec: genuine (bytes and hex credentials, fresh and re-authentication), single-bit flips of the 64-byte reply, all lengths 0..80, every type nibble, replies under other keys, silence; observing outcome, Device.token/key, what the device received, and whether a following exchange is accepted; plus codec-level correspondence of _get_local_key.",
+    design="DESIGN.md §6 C06",
+    technique="Lean 4 agreement theorem + outright-rejection theorems + reductions to named hash/cipher events; scripted-handshake differential harness",
+    note="Hash preimage/collision resistance is outside any model of this repository: stated as reductions.")
+
 NOT_YET = {
 }
 
